@@ -142,16 +142,17 @@ Proof.
   destruct (ename_eqb n name); [eexists; split; [reflexivity|exact Hi]|auto].
 Qed.
 
-Lemma sit_list_lt it bound : it_hi it <= bound -> Forall (fun i => i < bound) (sit_list it).
+Lemma sit_list_lt it bound : it_lo it <= it_hi it -> it_hi it <= bound ->
+  Forall (fun i => i < bound) (sit_list it).
 Proof.
-  intros H. unfold sit_list, sit_len. apply N_range_lt. lia.
+  intros H0 H. unfold sit_list, sit_len. apply N_range_lt. rewrite N2Nat.id. lia.
 Qed.
 
 Lemma attribute_node_returns id nd name : get_node d id = Some nd ->
   exists o, attribute_node text d id name = Ok o /\
             match o with Some i => i < len_N (d_attrs d) | None => True end.
 Proof.
-  intros Hg. destruct (attributes_returns id nd Hg) as (it & Hit & _ & Hhi).
+  intros Hg. destruct (attributes_returns id nd Hg) as (it & Hit & Hlo & Hhi).
   unfold attribute_node. rewrite Hit. cbn [bind].
   apply find_attr_returns. apply sit_list_lt; auto.
 Qed.
@@ -176,8 +177,8 @@ Lemma ns_lookup_returns {B} id nd pred (k : option namespace -> B) : get_node d 
   returns (let! it := namespaces d id in
            let! o := find_ns_by d (sit_list it) pred in Ok (k o)).
 Proof.
-  intros Hg. destruct (namespaces_returns id nd Hg) as (it & -> & _ & Hhi). cbn [bind].
-  destruct (find_ns_by_returns pred (sit_list it) (sit_list_lt _ _ Hhi)) as [o ->]. cbn [bind].
+  intros Hg. destruct (namespaces_returns id nd Hg) as (it & -> & Hlo & Hhi). cbn [bind].
+  destruct (find_ns_by_returns pred (sit_list it) (sit_list_lt _ _ Hlo Hhi)) as [o ->]. cbn [bind].
   eexists; reflexivity.
 Qed.
 
